@@ -81,9 +81,12 @@ def walk_tiers(root, cfg, setup_cmds, store_cmds, observe, stages=("mem", "flush
             rep = node.cmd(c)
             if check_ack:
                 must_ok(rep, f"store {c[:120]}")
-        node.sync()
+        node.syncflush()   # quiescent: WAL drained and every queued background flush finished
         if "mem" in stages:
-            observe("mem", node)
+            # name the stage by what the layout really is: "mem" = nothing flushed yet
+            st = node.meta("state")
+            on_disk = any(sh["live"] or sh["inflight"] for sh in st)
+            observe("mixed" if on_disk else "mem", node)
         if "flush" in stages or "c1" in stages or "c2" in stages:
             must_ok(node.cmd("FLUSH", timeout=60), "FLUSH")
             node.syncflush()
